@@ -122,9 +122,9 @@ class ProximalADMMBase(Optimizer):
         a solver working variable.
         """
         return (
-            snp.all(snp.isfinite(self.x))
-            and snp.all(snp.isfinite(self.z))
-            and snp.all(snp.isfinite(self.u))
+            not snp.any(snp.logical_not(snp.isfinite(self.x)))
+            and not snp.any(snp.logical_not(snp.isfinite(self.z)))
+            and not snp.any(snp.logical_not(snp.isfinite(self.u)))
         )
 
     def _objective_evaluatable(self):
